@@ -17,7 +17,8 @@ MAP_KEYS = ["string", "int32", "int64", "bool", "uint32", "sint64", "fixed32"]
 FIELD_NAMES = ["display_name", "size", "weight", "labels", "notes", "color", "rank", "ratio", "payload",
                "active", "quota", "etag", "owner", "tags", "score", "shape_id", "annotations", "priority",
                "serial", "depth", "alias", "mass", "flags", "region_code"]
-RESERVED_FIELD_NAMES = ["type", "class", "from", "in", "format", "max", "license", "next", "filter_", "import"]
+RESERVED_FIELD_NAMES = ["type", "class", "from", "in", "format", "max", "license", "next", "filter_", "import",
+                        "mapping", "ignore_unknown_fields"]
 ALL_CODES = ["CANCELLED", "UNKNOWN", "INVALID_ARGUMENT", "DEADLINE_EXCEEDED", "NOT_FOUND", "ALREADY_EXISTS",
              "PERMISSION_DENIED", "RESOURCE_EXHAUSTED", "FAILED_PRECONDITION", "ABORTED", "OUT_OF_RANGE",
              "UNIMPLEMENTED", "INTERNAL", "UNAVAILABLE", "DATA_LOSS", "UNAUTHENTICATED"]
@@ -31,7 +32,7 @@ DEFAULT_PROFILE = {
     "p_http": 0.9, "p_signature": 0.7, "p_routing": 0.25, "p_keyword_rpc": 0.08,
     "p_service_config": 0.8, "p_yaml": 0.3, "p_reserved_field": 0.08, "p_two_services": 0.25,
     "p_foreign_request": 0.1, "p_shuffle_numbers": 0.2, "p_additional_binding": 0.25,
-    "p_auto_populate": 0.0, "p_google_api_ns": 0.0, "sig_variants": False, "p_multi_var_path": 0.0, "mixin_variants": False, "p_add_iam_methods": 0.0, "p_equal_sort_keys": 0.0, "p_reserved_path_var": 0.0, "common_file_names": ["resources"],
+    "p_auto_populate": 0.0, "p_google_api_ns": 0.0, "sig_variants": False, "p_multi_var_path": 0.0, "mixin_variants": False, "p_add_iam_methods": 0.0, "p_equal_sort_keys": 0.0, "p_reserved_path_var": 0.0, "p_local_empty": 0.0, "common_file_names": ["resources"],
     "transports": ["grpc", "grpc+rest", "grpc+rest", "rest"],
     "p_numeric_enums": 0.3,
     "paged_variants": False,
@@ -408,6 +409,11 @@ def _gen_methods(cx, pkg, main, svc, noun, res, enums, msgs):
                 fields.append({"name": _fresh_name(rng, used), "number": 12, "type": t, "required": True})
             _msg(main, f"{mname}Request", fields)
             out = rng.choice([P + "." + noun, P + "." + noun, ".google.protobuf.Empty", f"{P}.{mname}Response"])
+            if cx.chance("p_local_empty"):
+                # a package-local message that merely happens to be called Empty (it is NOT google.protobuf.Empty)
+                if not any(mm["name"] == "Empty" for f in cx.files for mm in f["messages"]):
+                    _msg(main, "Empty", [{"name": "note", "number": 1, "type": "string"}, {"name": "code", "number": 2, "type": "int32"}])
+                out = P + ".Empty"
             if out.endswith("Response"):
                 _msg(main, f"{mname}Response", [{"name": low, "number": 1, "type": "message", "type_name": P + "." + noun},
                                                  {"name": "note", "number": 2, "type": "string"}])
